@@ -7,6 +7,7 @@ import (
 	"strings"
 
 	"github.com/llir/llvm/ir"
+	"github.com/llir/llvm/zzsim/simrt"
 )
 
 // C19 — WriteTo honours the io.WriterTo contract, also when the writer fails.
@@ -18,13 +19,21 @@ func init() {
 	props["C19"] = &propImpl{search: c19Search, replay: c19Replay, candidates: c19Candidates}
 }
 
-// C19Scenario is one run.
+// C19Step is one WriteTo call.
+type C19Step struct {
+	K     int    `json:"k"`               // bytes accepted before the failure; -1 = never fail
+	Shape string `json:"shape"`           // short: failing Write accepts up to k and returns the error; fullerr: failing Write accepts all of p and returns the error
+	Chunk int    `json:"chunk,omitempty"` // >0: a healthy writer that forwards in chunks of this many bytes
+}
+
+// C19Scenario is one episode: a module in a start state and a short sequence
+// of WriteTo calls on it, executed in one process from a reset simulator state.
+// The history is part of the scenario, so that a failure that depends on what
+// an earlier (failed) write left behind replays exactly.
 type C19Scenario struct {
-	Module string `json:"module"`          // module source name
-	Start  string `json:"start"`           // fresh | printed
-	K      int    `json:"k"`               // bytes accepted before the failure; -1 = never fail
-	Shape  string `json:"shape"`           // short: failing Write accepts up to k and returns the error; fullerr: failing Write accepts all of p and returns the error
-	Chunk  int    `json:"chunk,omitempty"` // >0: a healthy writer that forwards in chunks of this many bytes
+	Module string    `json:"module"` // module source name
+	Start  string    `json:"start"`  // fresh | printed
+	Steps  []C19Step `json:"steps"`
 }
 
 // simWriter is the simulated io.Writer.
@@ -91,7 +100,7 @@ type c19Outcome struct {
 
 // c19Run executes one scenario against module m (already in its start state)
 // whose sequential text is S.
-func c19Run(sc *C19Scenario, m *ir.Module, S string) *c19Outcome {
+func c19Run(sc *C19Step, m *ir.Module, S string) *c19Outcome {
 	injected := errors.New(fmt.Sprintf("injected write error (k=%d)", sc.K))
 	w := &simWriter{k: sc.K, shape: sc.Shape, chunk: sc.Chunk, err: injected, lateErr: errors.New("late error: Write called after a failed Write")}
 	var n int64
@@ -139,6 +148,33 @@ func minInt(a, b int) int {
 	return b
 }
 
+// c19Episode runs the steps of sc on a module built from src and returns the
+// outcome of the first failing step (nil if all pass), its index, and per-step
+// outcomes for the counters.
+func c19Episode(sc *C19Scenario, src *moduleSource, S string) (bad *c19Outcome, badStep int, outs []*c19Outcome, skip string) {
+	simrt.Load((&Tape{}).config())
+	simrt.SeamsOn(true, false)
+	defer simrt.SeamsOn(false, false)
+	m, err := src.Build()
+	if err != nil {
+		return nil, 0, nil, "module rejected by the parser"
+	}
+	if sc.Start == "printed" {
+		if p, _ := protect(func() { _ = m.String() }); p {
+			return nil, 0, nil, "String() panics (not C19's business)"
+		}
+	}
+	for i := range sc.Steps {
+		o := c19Run(&sc.Steps[i], m, S)
+		outs = append(outs, o)
+		if o.class != "" && bad == nil {
+			bad, badStep = o, i
+			break
+		}
+	}
+	return bad, badStep, outs, ""
+}
+
 func c19Search() {
 	sum := newSummary()
 	srcs := moduleSources(*flagSeed, *flagTier)
@@ -151,11 +187,7 @@ func c19Search() {
 		return u%shardN == shardI
 	}
 	failures := 0
-	report := func(sc *C19Scenario, o *c19Outcome) {
-		failures++
-		sum.Failures++
-		emit(outRec{T: "fail", Property: "C19", Seed: *flagSeed, Class: o.class, Sig: o.sig, Detail: o.detail, Replay: sc})
-	}
+	const episodeLen = 8
 	for _, src := range srcs {
 		if failures >= *flagMaxFail || overBudget() {
 			break
@@ -170,83 +202,101 @@ func c19Search() {
 			sum.Skipped["String() panics (not C19's business)"]++
 			continue
 		}
-		printed, _ := src.Build()
-		_ = printed.String()
+		if again := twin.String(); again != S {
+			sum.Skipped["module text changes between two prints (C14)"]++
+			continue
+		}
+		runEpisode := func(sc *C19Scenario) {
+			bad, badStep, outs, skip := c19Episode(sc, src, S)
+			if skip != "" {
+				sum.Skipped[skip]++
+				return
+			}
+			sum.Counters["episodes (fresh simulator state, module rebuilt)"]++
+			for i, o := range outs {
+				st := sc.Steps[i]
+				sum.Runs++
+				sum.Counters["runs/"+sc.Start]++
+				if o.faultFired {
+					sum.Counters["fault fired/"+st.Shape]++
+					if o.midWrite {
+						sum.Counters["fault landed inside a Write"]++
+					} else {
+						sum.Counters["fault landed on a Write boundary"]++
+					}
+					if i+1 < len(outs) {
+						sum.Counters["writes that followed a failed write in the same process"]++
+					}
+				} else if st.Chunk > 0 {
+					sum.Counters["healthy chunking writer"]++
+				} else {
+					sum.Counters["healthy writer"]++
+				}
+				distinct.add(hash64(sc.Module, sc.Start, st.Shape, fmt.Sprint(st.K), fmt.Sprint(st.Chunk)))
+			}
+			if len(sum.Samples) < 4 && sum.Counters["episodes (fresh simulator state, module rebuilt)"]%131 == 1 {
+				sum.Samples = append(sum.Samples, sc)
+			}
+			if bad != nil {
+				failures++
+				sum.Failures++
+				cut := *sc
+				cut.Steps = sc.Steps[:badStep+1]
+				bad.detail = fmt.Sprintf("step %d of the episode (%+v): %s", badStep, sc.Steps[badStep], bad.detail)
+				emit(outRec{T: "fail", Property: "C19", Seed: *flagSeed, Class: bad.class, Sig: bad.sig, Detail: bad.detail, Replay: &cut})
+			}
+		}
+		// Healthy writers.
+		if mine() {
+			runEpisode(&C19Scenario{Module: src.Name, Start: "printed", Steps: []C19Step{{K: -1, Shape: "short"}, {K: -1, Shape: "short", Chunk: 1}, {K: -1, Shape: "short", Chunk: 7}, {K: -1, Shape: "short", Chunk: 64}}})
+		}
+		if mine() {
+			runEpisode(&C19Scenario{Module: src.Name, Start: "fresh", Steps: []C19Step{{K: -1, Shape: "short"}, {K: -1, Shape: "short"}}})
+		}
 		full := thorough || len(S) <= 4096
 		shapes := []string{"short"}
 		if thorough {
 			shapes = []string{"short", "fullerr"}
 		}
-		runOne := func(sc *C19Scenario, m *ir.Module) {
-			o := c19Run(sc, m, S)
-			sum.Runs++
-			sum.Counters["runs/"+sc.Start]++
-			if o.faultFired {
-				sum.Counters["fault fired/"+sc.Shape]++
-				if o.midWrite {
-					sum.Counters["fault landed inside a Write"]++
-				} else {
-					sum.Counters["fault landed on a Write boundary"]++
-				}
-			} else if sc.Chunk > 0 {
-				sum.Counters["healthy chunking writer"]++
-			} else {
-				sum.Counters["healthy writer"]++
-			}
-			distinct.add(hash64(sc.Module, sc.Start, sc.Shape, fmt.Sprint(sc.K), fmt.Sprint(sc.Chunk)))
-			if o.class != "" {
-				report(sc, o)
-			}
-			if len(sum.Samples) < 4 && sum.Runs%977 == 1 {
-				sum.Samples = append(sum.Samples, sc)
-			}
-		}
-		// Healthy writers.
-		for _, chunk := range []int{0, 1, 7, 64} {
-			if !mine() {
-				continue
-			}
-			runOne(&C19Scenario{Module: src.Name, Start: "printed", K: -1, Shape: "short", Chunk: chunk}, printed)
-		}
-		if mine() {
-			fresh, _ := src.Build()
-			runOne(&C19Scenario{Module: src.Name, Start: "fresh", K: -1, Shape: "short"}, fresh)
-		}
-		// Failing writers: every offset.
 		if full {
 			for _, shape := range shapes {
-				for k := 0; k <= len(S) && failures < *flagMaxFail; k++ {
+				for k0 := 0; k0 <= len(S) && failures < *flagMaxFail; k0 += episodeLen {
 					if !mine() {
 						continue
 					}
-					runOne(&C19Scenario{Module: src.Name, Start: "printed", K: k, Shape: shape}, printed)
-					// From the never-printed state: a sample in quick, every offset in thorough.
-					if thorough && len(S) <= 16384 || k%97 == 0 {
-						fresh, _ := src.Build()
-						runOne(&C19Scenario{Module: src.Name, Start: "fresh", K: k, Shape: shape}, fresh)
+					sc := &C19Scenario{Module: src.Name, Start: "printed"}
+					// From the never-printed state: a sample in quick, every episode of small modules in thorough.
+					if (thorough && len(S) <= 16384 && (k0/episodeLen)%2 == 1) || (k0/episodeLen)%13 == 5 {
+						sc.Start = "fresh"
 					}
+					for k := k0; k < k0+episodeLen && k <= len(S); k++ {
+						sc.Steps = append(sc.Steps, C19Step{K: k, Shape: shape})
+					}
+					// A healthy write after the failures: what a failed write left behind must not leak into it.
+					sc.Steps = append(sc.Steps, C19Step{K: -1, Shape: "short"})
+					runEpisode(sc)
 				}
 			}
-			sum.Counters["modules enumerated at every offset"]++
+			if shardI == 0 {
+				sum.Counters["modules enumerated at every offset"]++
+			}
 		} else {
 			// Seeded sample of offsets for big modules (quick tier only).
 			r := newRNG(derive(*flagSeed, "C19/"+src.Name))
-			for i := 0; i < 300 && failures < *flagMaxFail; i++ {
-				k := r.intn(len(S) + 1)
-				shape := []string{"short", "fullerr"}[r.intn(2)]
+			for e := 0; e < 40 && failures < *flagMaxFail; e++ {
+				sc := &C19Scenario{Module: src.Name, Start: "printed"}
+				for i := 0; i < episodeLen-1; i++ {
+					sc.Steps = append(sc.Steps, C19Step{K: r.intn(len(S) + 1), Shape: []string{"short", "fullerr"}[r.intn(2)]})
+				}
+				sc.Steps = append(sc.Steps, C19Step{K: -1, Shape: "short"})
 				if !mine() {
 					continue
 				}
-				runOne(&C19Scenario{Module: src.Name, Start: "printed", K: k, Shape: shape}, printed)
+				runEpisode(sc)
 			}
-			sum.Counters["modules sampled"]++
-		}
-		// The printed module must still print the same text, otherwise the
-		// comparisons above were against a moving target (that would be C14's
-		// finding, not C19's).
-		var again string
-		if p, _ := protect(func() { again = printed.String() }); p || again != S {
-			sum.Skipped["module text changed between prints (C14)"]++
+			if shardI == 0 {
+				sum.Counters["modules sampled"]++
+			}
 		}
 	}
 	sum.Exhausted = thorough
@@ -256,8 +306,8 @@ func c19Search() {
 
 func c19Replay(raw json.RawMessage) *outRec {
 	var sc C19Scenario
-	if err := json.Unmarshal(raw, &sc); err != nil {
-		return &outRec{T: "note", Class: "harness-error", Detail: err.Error()}
+	if err := json.Unmarshal(raw, &sc); err != nil || len(sc.Steps) == 0 {
+		return &outRec{T: "note", Class: "harness-error", Detail: "bad C19 scenario"}
 	}
 	src := findSource(sc.Module)
 	if src == nil {
@@ -268,55 +318,71 @@ func c19Replay(raw json.RawMessage) *outRec {
 		return &outRec{T: "note", Class: "harness-error", Detail: "module does not parse: " + err.Error()}
 	}
 	S := twin.String()
-	m, _ := src.Build()
-	if sc.Start == "printed" {
-		_ = m.String()
+	bad, badStep, _, skip := c19Episode(&sc, src, S)
+	if skip != "" {
+		return &outRec{T: "note", Class: "skipped", Detail: skip}
 	}
-	o := c19Run(&sc, m, S)
-	if o.class == "" {
+	if bad == nil {
 		return nil
 	}
-	return &outRec{T: "fail", Property: "C19", Class: o.class, Sig: o.sig, Detail: o.detail, Replay: &sc}
+	return &outRec{T: "fail", Property: "C19", Class: bad.class, Sig: bad.sig, Detail: fmt.Sprintf("step %d of the episode (%+v): %s", badStep, sc.Steps[badStep], bad.detail), Replay: &sc}
 }
 
 func c19Candidates(raw json.RawMessage) []interface{} {
 	var sc C19Scenario
-	if json.Unmarshal(raw, &sc) != nil {
+	if json.Unmarshal(raw, &sc) != nil || len(sc.Steps) == 0 {
 		return nil
 	}
 	var out []interface{}
-	add := func(f func(c *C19Scenario)) {
-		c := sc
-		f(&c)
-		out = append(out, &c)
+	clone := func() *C19Scenario {
+		b, _ := json.Marshal(&sc)
+		var c C19Scenario
+		json.Unmarshal(b, &c)
+		return &c
 	}
-	// Smaller modules first (the violation is usually not module specific).
-	srcs := moduleSources(1, "quick")
-	var best *moduleSource
-	for _, s := range srcs {
-		if s.Text != "" && s.Name != sc.Module && len(s.Text) < 400 && (best == nil || len(s.Text) < len(best.Text)) {
-			best = s
+	n := len(sc.Steps)
+	// Only the last step; then drop single earlier steps.
+	if n > 1 {
+		c := clone()
+		c.Steps = c.Steps[n-1:]
+		out = append(out, c)
+		c2 := clone()
+		c2.Steps = c2.Steps[n-2:]
+		out = append(out, c2)
+		for i := 0; i < n-1; i++ {
+			c := clone()
+			c.Steps = append(c.Steps[:i:i], c.Steps[i+1:]...)
+			out = append(out, c)
 		}
 	}
-	if best != nil && best.Name != sc.Module {
-		add(func(c *C19Scenario) { c.Module = best.Name; c.K = 0 })
-		add(func(c *C19Scenario) { c.Module = best.Name; c.K = 1 })
-		add(func(c *C19Scenario) { c.Module = best.Name; c.K = len(best.Text) / 2 })
-		add(func(c *C19Scenario) { c.Module = best.Name })
-	}
 	if sc.Start != "printed" {
-		add(func(c *C19Scenario) { c.Start = "printed" })
+		c := clone()
+		c.Start = "printed"
+		out = append(out, c)
 	}
-	if sc.Shape != "short" {
-		add(func(c *C19Scenario) { c.Shape = "short" })
+	last := sc.Steps[n-1]
+	mod := func(f func(st *C19Step)) {
+		c := clone()
+		f(&c.Steps[n-1])
+		out = append(out, c)
 	}
-	if sc.Chunk != 0 {
-		add(func(c *C19Scenario) { c.Chunk = 0 })
+	if last.Shape != "short" {
+		mod(func(st *C19Step) { st.Shape = "short" })
 	}
-	if sc.K > 0 {
-		add(func(c *C19Scenario) { c.K = 0 })
-		add(func(c *C19Scenario) { c.K = c.K / 2 })
-		add(func(c *C19Scenario) { c.K = c.K - 1 })
+	if last.Chunk != 0 {
+		mod(func(st *C19Step) { st.Chunk = 0 })
+	}
+	if last.K > 0 {
+		mod(func(st *C19Step) { st.K = 0 })
+		mod(func(st *C19Step) { st.K /= 2 })
+		mod(func(st *C19Step) { st.K-- })
+	}
+	for i := 0; i < n-1; i++ {
+		if sc.Steps[i].K > 0 {
+			c := clone()
+			c.Steps[i].K = 0
+			out = append(out, c)
+		}
 	}
 	return out
 }
